@@ -1112,7 +1112,17 @@ def r5(ctx):
         ctx.check(P, rule, "missing_nodes answers 0 for an index outside the tree", ops == ["Ge"], "Ok(0) when right span >= 2*length", "missing_nodes short-cuts when right span %s head" % ops, key="C09|C09.R5|missing_nodes")
 
 
-RULES = [r1, r3, r4, r5]
+def r6(ctx):
+    """the reviewed assumption behind `block_value.expect(..)` in ValuelessProof::into_proof
+    (rules/panic_sites.json) is re-verified here, under C09, on every run: create_proof reads the
+    value for the proof's own block and returns Ok(None) before into_proof whenever that value is
+    None — the clauses of C03.R1.  A request for a block that is not held (cleared, or never
+    downloaded), with or without an upgrade, must not reach the expect."""
+    from . import c03
+    c03.r1(ctx, P, "C09.R6")
+
+
+RULES = [r1, r3, r4, r5, r6]
 CONTROLS = ["c09_unguarded_index", "c09_loop_cannot_exit"]
 EXPLANATION = ("C09 (no peer request or proof can panic or hang the node): enumerates every panic-capable construct (bounds / subtraction / division asserts, unwrap/expect, Index on Vec/slice, "
                "panic! entry points, RefCell borrows, drain/split/pow) in the call-graph closure of create_proof and verify_and_apply_proof and requires each to be discharged by constant operands "
